@@ -320,7 +320,10 @@ MANIFEST = {
                  "between two txs, after Commit, and from a second goroutine PARKED inside a FunToken precompile method while the "
                  "block's txs enter the precompile; a second driver calls EVERY gRPC query route of the seven custom modules (enumerated "
                  "by reflection) around blocks that end day epochs (inflation mints), oracle vote periods and a slash window and "
-                 "compares app hashes, supply and block events; Pb (sound w.r.t. P) must hold on every observed pair."),
+                 "compares app hashes, supply and block events; a third driver SIMULATES single- and multi-message Cosmos txs (bank, "
+                 "tokenfactory, FunToken msgs; never committed) between the blocks that deliver sub-sequences of the same messages "
+                 "and compares every DeliverTx response and app hash (C09_branch_isolation_generic: with per-branch steps of ANY "
+                 "kind the deliver branch evolves as alone under every schedule); Pb (sound w.r.t. P) must hold on every observed pair."),
         "design_ref": "DESIGN.md §5 C09",
     },
     "level_note": ("Theorems are about the model; real schedules are exhibited by inline injection at yield points and by parking one "
